@@ -27,6 +27,11 @@ def sh(cmd, cwd=None, timeout=3600):
 
 
 def run_checks(patch, checks):
+    # the evidence files describe the unchanged tree: keep them aside while the checks run against the patched tree
+    ev, bak = os.path.join(VERIF, "evidence"), os.path.join(VERIF, ".work", "evidence.unchanged")
+    shutil.rmtree(bak, ignore_errors=True)
+    os.makedirs(os.path.dirname(bak), exist_ok=True)
+    shutil.copytree(ev, bak)
     rc, out = sh(f"git -C /repo apply {patch}")
     assert rc == 0, out
     caught = {}
@@ -53,6 +58,8 @@ def run_checks(patch, checks):
             print(c, kind, detail[:120])
     finally:
         sh("git -C /repo checkout -- .")
+        shutil.rmtree(ev, ignore_errors=True)
+        shutil.copytree(bak, ev)
     return caught
 
 
@@ -122,33 +129,8 @@ def main():
     if not confirmed:
         print("NOT CONFIRMED — not kept")
         sys.exit(1)
-    # ---- 2 run the checks against the patched /repo
-    rc, out = sh(f"git -C /repo apply {patch}")
-    assert rc == 0, out
-    caught = {}
-    try:
-        for c in checks:
-            rc, out = sh(f"./check {c} --tier quick", cwd=VERIF, timeout=3600)
-            v = [l for l in out.splitlines() if l.startswith("VIOLATION")]
-            summ = [l for l in out.splitlines() if l.startswith(c + " tier=")]
-            kind = "quiet"
-            detail = ""
-            if rc != 0 and v:
-                kind = "no-failing-input-found" if v[0].rstrip().endswith("no-failing-input-found") else "violation-with-input"
-                rp = re.search(r"replay=(\S+)", v[0])
-                if rp and os.path.exists(rp.group(1)):
-                    try:
-                        r = json.load(open(rp.group(1)))
-                        detail = (r.get("required") or r.get("what") or "")[:300]
-                    except Exception:
-                        pass
-            elif rc != 0:
-                kind = f"check-error rc={rc}"
-                detail = out[-300:]
-            caught[c] = {"result": kind, "detail": detail, "summary": summ[-1] if summ else ""}
-            print(c, kind, detail[:120])
-    finally:
-        sh("git -C /repo checkout -- .")
+    # ---- 2 run the checks against the patched /repo (evidence files of the unchanged tree are preserved)
+    caught = run_checks(patch, checks)
     meta["checks"] = caught
     meta["caught_by"] = sorted(c for c, r in caught.items() if r["result"].startswith(("violation", "no-failing")))
     meta["caught_by_target_property"] = pid in meta["caught_by"]
